@@ -124,6 +124,9 @@ func workerMain(args []string) int {
 		w.MaxCases = 0
 		w.Deadline = time.Now()
 	}
+	if simrt.RestoreDisabled != "" && f.w == 0 {
+		w.St.Errors = append(w.St.Errors, "package state is not reset between cases: "+simrt.RestoreDisabled)
+	}
 	if vl, err := os.Create(filepath.Join(f.scratch, fmt.Sprintf("viol.%s.%d.jsonl", f.prop, f.w))); err == nil {
 		w.violLog = vl
 		defer vl.Close()
@@ -193,9 +196,16 @@ func workerMain(args []string) int {
 		hb = binary.LittleEndian.AppendUint64(hb, h)
 	}
 	os.WriteFile(filepath.Join(f.scratch, fmt.Sprintf("hashes.%s.%d", f.prop, f.w)), hb, 0o644)
-	out := bufio.NewWriter(os.Stdout)
+	// statistics go to a file, not to stdout: the library under test may print
+	sf, err := os.Create(filepath.Join(f.scratch, fmt.Sprintf("stats.%s.%d.json", f.prop, f.w)))
+	if err != nil {
+		fmt.Fprintln(os.Stderr, "cannot write statistics:", err)
+		return 2
+	}
+	out := bufio.NewWriter(sf)
 	json.NewEncoder(out).Encode(w.St)
 	out.Flush()
+	sf.Close()
 	return 0
 }
 
@@ -276,7 +286,10 @@ func driver(args []string) int {
 			err := cmd.Run()
 			st := &Stats{}
 			if err == nil {
-				err = json.Unmarshal(so.Bytes(), st)
+				var b []byte
+				if b, err = os.ReadFile(filepath.Join(scratch, fmt.Sprintf("stats.%s.%d.json", f.prop, i))); err == nil {
+					err = json.Unmarshal(b, st)
+				}
 			}
 			res[i] = wres{st, err, se.String()}
 		}(i)
@@ -311,6 +324,10 @@ func driver(args []string) int {
 	tot.Extra["failed_workers"] = int64(failedWorkers)
 	tot.Nontrivial = int64(len(distinct))
 
+	if f.prop == "C19" && tot.Extra["unowned_goroutines_seen"] > 0 {
+		fmt.Printf("note: goroutines the simulator did not start were seen in %d lane-A runs (a dependency or an unrewritten construct starts them): lane A's findings are not trusted for this tree and are dropped; verdict from lane B\n", tot.Extra["unowned_goroutines_seen"])
+		tot.Violations = nil
+	}
 	laneB := map[string]any(nil)
 	laneBUnreproduced := false
 	exit := 0
@@ -411,6 +428,9 @@ func driver(args []string) int {
 	}
 	if simrt.RestoreDisabled != "" {
 		fmt.Println("note: package state is not reset between cases:", simrt.RestoreDisabled)
+	}
+	if tot.RecheckBad > 0 {
+		fmt.Printf("note: %d of %d re-executed cases did not reproduce their event hash: the tree contains nondeterminism the simulator does not own (see unowned_nondeterminism; sync.Pool reuse, state that cannot be reset)\n", tot.RecheckBad, tot.Rechecks)
 	}
 	if laneBUnreproduced && exit == 0 {
 		fmt.Println("ERROR: a lane-B race report did not reproduce and nothing else was confirmed: no verdict")
